@@ -182,8 +182,12 @@ func c09GenSpec(rng *rand.Rand) *c09Spec {
 // ---------------------------------------------------------------- driving the real filter
 
 func c09Build(s *c09Spec, prev *RateLimiter) (*RateLimiter, error) {
+	return c09BuildYAML(s.YAML(), prev)
+}
+
+func c09BuildYAML(y string, prev *RateLimiter) (*RateLimiter, error) {
 	raw := map[string]interface{}{}
-	yamltool.Unmarshal([]byte(s.YAML()), &raw)
+	yamltool.Unmarshal([]byte(y), &raw)
 	spec, err := filters.NewSpec(nil, "", raw)
 	if err != nil {
 		return nil, err
